@@ -118,7 +118,9 @@ pub fn altered_encrypted_part(pat: Pat, psk_mask: u16, k: usize, kind: u8) {
     }
     let s0 = verif::snapshot(&r);
     let mut out = [0xEEu8; 8];
-    let res = r.read_message(&d[..dlen], &mut out);
+    // the receiver offers a payload buffer of exactly the honest payload's size (2 bytes) or a roomy one
+    let exact: bool = kani::any();
+    let res = if exact { r.read_message(&d[..dlen], &mut out[..2]) } else { r.read_message(&d[..dlen], &mut out) };
     kani::cover!(true, "C03 alteration harness reached");
     assert!(res.is_err(), "C03: an alteration inside the encrypted part of a handshake message was accepted");
     let s1 = verif::snapshot(&r);
